@@ -23,9 +23,11 @@ SPEC_DIR = tlc.SPEC / "concat"
 ALL_DEV = ["RenameKeepsLabel", "WsRemoveKeepsChild", "HoleRemovalKeepsObjectRows", "HoleRemovalKeepsGroupChild",
            "StalePgIdCache", "EmptyTableRaises", "TableByLabel"]
 # (cfg, format version, number of paths replayed: None = the complete path cover, n = seeded sample)
-EXPORTS = {"quick": [("DrillholeConcatExportQuick.cfg", 21, 800), ("DrillholeConcatExportDeep.cfg", 21, 400),
+EXPORTS = {"quick": [("DrillholeConcatExportFlags.cfg", 21, None), ("DrillholeConcatExportText.cfg", 21, 300),
+                     ("DrillholeConcatExportQuick.cfg", 21, 600), ("DrillholeConcatExportDeep.cfg", 21, 300),
                      ("DrillholeConcatExportQuick20.cfg", 20, None)],
-           "thorough": [("DrillholeConcatExportQuick.cfg", 21, None), ("DrillholeConcatExportDeep.cfg", 21, None),
+           "thorough": [("DrillholeConcatExportFlags.cfg", 21, None), ("DrillholeConcatExportText.cfg", 21, None),
+                        ("DrillholeConcatExportQuick.cfg", 21, None), ("DrillholeConcatExportDeep.cfg", 21, None),
                         ("DrillholeConcatExportQuick20.cfg", 20, None), ("DrillholeConcatExportThorough20.cfg", 20, 2500),
                         ("DrillholeConcatExportThorough.cfg", 21, 5000), ("DrillholeConcatExportThorough5.cfg", 21, 4000)]}
 IDEAL = {"quick": "DrillholeConcatIdealQuick.cfg", "thorough": "DrillholeConcatIdealThorough.cfg"}
@@ -106,7 +108,10 @@ def _items(g, init, paths, version):
         if last in out and g.edges[p[-1]][2]["act"] != "Reopen" and not g.states[last]["s"]["broken"]:
             d, lab = out[last]
             tail = {"edge": lab, "state": g.states[d]}
-        items.append({"version": version, "steps": steps, "tail": tail})
+        # refinement parameters of the scene that the specification does not distinguish: the payload kind comes
+        # from the cfg (Kind), every second path gives the group a plain (non-concatenated) child as well
+        items.append({"version": version, "kind": steps[0]["state"].get("kind", "float"), "plain_child": len(items) % 2 == 0,
+                      "steps": steps, "tail": tail})
     return items
 
 
@@ -144,30 +149,54 @@ def _witness_paths(g, init, devs):
     return found
 
 
+def _pmap(fn, items):
+    """pool.pmap runs a single item inside this process and removes the scratch directory it made the
+    process-wide TMPDIR afterwards; later mkdtemp calls (run_tlc) would fail.  One item is run here instead."""
+    items = list(items)
+    out = [fn(x) for x in items] if len(items) < 2 else pmap(fn, items)
+    for var in ("TMPDIR",):
+        if os.environ.get(var) and not os.path.isdir(os.environ[var]):
+            os.environ.pop(var)
+    if tempfile.tempdir and not os.path.isdir(tempfile.tempdir):
+        tempfile.tempdir = None
+    return out
+
+
 def _probe(work):
     """Which named deviations does the implementation show?  Witness paths of the probe graph are replayed;
     a mismatch at a step that exhibits deviations means those are not (all) present: they are switched off
-    and the probe is repeated with the smaller set."""
+    and the probe is repeated with the smaller set.  A mismatch at a step that exhibits no deviation is
+    explained by no subset: it is returned as a violation `probe:unexplained:<action>`.
+    Returns (deviations to export with, violations)."""
     devs = set(ALL_DEV)
+    viol = []
     for _ in range(len(ALL_DEV) + 1):
         res, g, init = _export("DrillholeConcatProbe.cfg", sorted(devs), work)
         wit = _witness_paths(g, init, devs)
-        if set(wit) != devs:
-            raise MachineryError(f"probe graph has no witness for {sorted(devs - set(wit))}")
+        # a deviation without witness in this graph cannot be decided here: it stays switched on and the
+        # main replay decides (a wrong guess shows up there as a mismatch, never as a crash)
         paths = sorted({tuple(p) for p in wit.values()})
         items = _items(g, init, [list(p) for p in paths], 21)
         for it in items:
             it["tail"] = None
-        out = pmap(replay_path, items)
+        out = _pmap(replay_path, items)
         absent = set()
+        viol = []
         for it, r in zip(items, out):
             k = r["mismatch_step"]
-            if k is not None and k <= len(it["steps"]):
-                absent |= _step_devs(it["steps"][k - 1]["edge"], it["steps"][k - 1]["state"]) & devs
+            if k is None:
+                continue
+            shown = _step_devs(it["steps"][k - 1]["edge"], it["steps"][k - 1]["state"]) & devs if k <= len(it["steps"]) else set()
+            if shown:
+                absent |= shown
+            else:
+                for v in r["violations"]:
+                    act = it["steps"][min(k, len(it["steps"])) - 1]["edge"]["act"]
+                    viol.append({"signature": f"probe:unexplained:{act}:{v['signature']}", "summary": v["summary"], "case": v["case"]})
         if not absent:
-            return devs
+            break
         devs -= absent
-    raise MachineryError("probe did not converge")
+    return devs, viol
 
 
 def _replay_graph(g, init, version, seed, limit):
@@ -182,7 +211,7 @@ def _replay_graph(g, init, version, seed, limit):
         paths = [paths[i] for i in idx]
     items = _items(g, init, paths, version)
     t0 = time.time()
-    res = pmap(replay_path, items)
+    res = _pmap(replay_path, items)
     return items, res, full, time.time() - t0
 
 
@@ -210,7 +239,8 @@ def run(tier, seed):
                 f_single[d] = _Bg(f"DrillholeConcatNeg_{d}.cfg", 1, "2g")
                 bg.append(f_single[d])
         # (3) conformance: export the graph for the deviations the implementation shows, replay a path cover
-        devs_used = _probe(work)
+        devs_used, probe_viol = _probe(work)
+        viol += probe_viol
         for cfg, version, limit in EXPORTS[tier]:
             res, g, init = _export(cfg, sorted(devs_used), work)
             items, out, full, wall = _replay_graph(g, init, version, seed, limit)
@@ -248,7 +278,8 @@ def run(tier, seed):
                 b.proc.kill()
         shutil.rmtree(work, ignore_errors=True)
     need = {"AddHole", "AddDepthData", "AddIntervalData", "SetValues", "Rename", "RemoveDataViaParent", "RemoveDataViaWorkspace",
-            "RemoveHoleViaParent", "RemoveHoleViaWorkspace", "RemovePropertyGroup", "AddValuesToTable", "Reopen", "CopyGroup"}
+            "RemoveHoleViaParent", "RemoveHoleViaWorkspace", "RemovePropertyGroup", "AddValuesToTable", "Reopen", "CopyGroup",
+            "Protect"}
     if need - set(acts_seen):
         raise MachineryError(f"actions never replayed: {sorted(need - set(acts_seen))}")
     if replayed_steps < 1000:
@@ -256,7 +287,8 @@ def run(tier, seed):
     for sig, n in sorted(find_count.items()):
         text, it = find_text[sig]
         viol.append({"signature": sig, "summary": f"{text} [seen {n}x]",
-                     "case": {"version": it["version"], "steps": it["steps"], "tail": it["tail"]}})
+                     "case": {"version": it["version"], "kind": it.get("kind", "float"), "plain_child": it.get("plain_child", False),
+                              "steps": it["steps"], "tail": it["tail"]}})
     return {
         "level": "model_checking",
         "violations": viol,
